@@ -115,7 +115,7 @@ SPEC = r"""
         }), // [C16:and_or_on_two_bools]
         // ---- C11: concatenation has the elements of s then t, in a fresh container
         (op is Sum && lhs is Str && rhs is Str) ==> (r matches Ok(v) && (v matches Value::Str(o) && o@ == lhs->Str_0@ + rhs->Str_0@)), // [C11:string_concatenation_is_the_bytes_of_s_then_t]
-        (op is Sum && lhs is List && rhs is List) ==> (r matches Ok(v) && (v matches Value::List(o) && o.0.0@ == lhs->List_0.0.0@ + rhs->List_0.0.0@)), // [C11:list_concatenation_is_the_elements_of_s_then_t]
+        (op is Sum && lhs is List && rhs is List) ==> (r matches Ok(v) && (v matches Value::List(o) && o.0.0@ == lhs->List_0.0.0@ + rhs->List_0.0.0@)), // [C11_C14:list_concatenation_is_the_elements_of_s_then_t_each_with_its_provenance]
         // ---- C10: == / != share one structural answer and negate it; a mismatch inside is an error naming both types
         (op is Eq || op is Ne) ==> (match sem_eq(*lhs, *rhs) {
             Ok(v) => r == Ok::<Value, Error>(Value::Bool(if op is Eq { v } else { !v })),
